@@ -9,7 +9,7 @@ from .. import impl, docs
 from ..genrun import run_cli, scratch, rm
 from ..img_cs import parse_dir, data_member_name, null_ignoring, norm, CsParseError
 from ..mm import MM, admits_null, is_null_type, upper_camel
-from ..runner import Result, Violation
+from ..runner import Result, Violation, load_known, match_known
 
 PROP = "C08"
 BASE_CS = {"string": "string", "RegExp": "string", "DocumentUri": "Uri", "URI": "Uri", "decimal": "float", "integer": "int",
@@ -304,9 +304,46 @@ def generate(doc_path=None):
         rm(out), rm(tst)
 
 
+def second_generation_in_one_process():
+    """Committed model, then in the same interpreter an evolved model; the relation is checked on the second output."""
+    import copy
+    import logging
+    from .c16 import evolve_for_history
+    impl.setup_paths()
+    model = impl.generator_module("generator.model")
+    plugin = impl.generator_module("generator.plugins.dotnet")
+    base = docs.small_base()
+    evolved = evolve_for_history(docs.slice_model(docs.committed(), methods=("textDocument/hover", "textDocument/didOpen", "shutdown", "textDocument/colorPresentation"), names=("FoldingRange",)))
+    out = scratch("lspverif-c08b-")
+    logging.disable(logging.CRITICAL)
+    try:
+        for i, d in enumerate((base, evolved)):
+            o, t = os.path.join(out, "o%d" % i), os.path.join(out, "t%d" % i)
+            os.makedirs(o), os.makedirs(t)
+            plugin.generate(model.create_lsp_model([copy.deepcopy(d)]), o, t)
+        decls, n = parse_dir(os.path.join(out, "o1", "lsprotocol"))
+        return evolved, decls, n, None
+    except Exception as e:  # noqa: BLE001
+        return evolved, None, 0, "dotnet plugin fails on the second (evolved) model in one process: %s: %s" % (type(e).__name__, str(e)[:200])
+    finally:
+        logging.disable(logging.NOTSET)
+        rm(out)
+
+
 def run(ctx):
     res = Result()
     doc = docs.committed()
+    ev_doc, ev_decls, ev_n, ev_err = second_generation_in_one_process()
+    if ev_err:
+        res.add(Violation(PROP, "plugin", "dotnet:second-run", ev_err, {"engine": "BISIM", "input": None}))
+    else:
+        known = load_known()
+        vs2, st2 = bisim(ev_doc, ev_decls, ev_n)
+        for v in vs2:
+            if match_known(v, known) is not None:
+                res.add(v)          # same known finding as on the committed model
+            else:
+                res.add(Violation(PROP, v.kind, v.site, "second generation in the same process, evolved model: " + v.what, v.replay, extra="second-run"))
     decls, nfiles, err = generate()
     stats = {}
     if err:
